@@ -13,15 +13,16 @@ pub fn run(thorough: bool) -> Vec<Part> {
     part.assume("EAGAIN from the stream counts as a non-interrupt error (the statement: 'zero bytes written or a non-interrupt error' discards everything)");
     let cfgs: Vec<WCfg> = if thorough {
         vec![
-            WCfg { label: "3 enqueues, bodies 5/300, every length".into(), bodies: vec![5, 300], max_enqueues: 3, all_lengths: true },
-            WCfg { label: "6 enqueues, bodies 0/5, every length".into(), bodies: vec![0, 5], max_enqueues: 6, all_lengths: false },
-            WCfg { label: "2 enqueues, bodies 5/8192, every length".into(), bodies: vec![5, 8192], max_enqueues: 2, all_lengths: true },
-            WCfg { label: "3 enqueues, bodies 5/300/8192, boundary lengths".into(), bodies: vec![5, 300, 8192], max_enqueues: 3, all_lengths: false },
+            WCfg { label: "3 enqueues, bodies 5/300, every length".into(), bodies: vec![5, 300], max_enqueues: 3, all_lengths: true, bodyless_variants: false },
+            WCfg { label: "6 enqueues, bodies 0/5, every length".into(), bodies: vec![0, 5], max_enqueues: 6, all_lengths: false, bodyless_variants: false },
+            WCfg { label: "2 enqueues, bodies 5/8192, every length".into(), bodies: vec![5, 8192], max_enqueues: 2, all_lengths: true, bodyless_variants: false },
+            WCfg { label: "3 enqueues, bodies 5/300/8192, boundary lengths".into(), bodies: vec![5, 300, 8192], max_enqueues: 3, all_lengths: false, bodyless_variants: false },
         ]
     } else {
         vec![
-            WCfg { label: "3 enqueues, bodies 5/40, every length".into(), bodies: vec![5, 40], max_enqueues: 3, all_lengths: true },
-            WCfg { label: "4 enqueues, bodies 5/300, boundary lengths".into(), bodies: vec![5, 300], max_enqueues: 4, all_lengths: false },
+            WCfg { label: "3 enqueues, bodies 5/40, every length".into(), bodies: vec![5, 40], max_enqueues: 3, all_lengths: true, bodyless_variants: false },
+            WCfg { label: "4 enqueues, bodies 5/300, boundary lengths".into(), bodies: vec![5, 300], max_enqueues: 4, all_lengths: false, bodyless_variants: false },
+            WCfg { label: "3 enqueues, bodies 5/5000/9000 (coarse lengths) + body-less variants".into(), bodies: vec![5, 5000, 9000], max_enqueues: 3, all_lengths: false, bodyless_variants: true },
         ]
     };
     for cfg in cfgs {
@@ -37,8 +38,8 @@ pub fn run(thorough: bool) -> Vec<Part> {
     // the digest does not see): every action sequence up to depth N over the boundary menu.
     {
         use crate::explore::System;
-        let cfg = WCfg { label: "stateless: every sequence, no de-duplication".into(), bodies: vec![5, 40], max_enqueues: 3, all_lengths: false };
-        let depth = if thorough { 8 } else { 7 };
+        let cfg = WCfg { label: "stateless: every sequence, no de-duplication".into(), bodies: vec![5, 40], max_enqueues: 3, all_lengths: false, bodyless_variants: true };
+        let depth = if thorough { 7 } else { 6 };
         let root = cfg.run(&[]);
         let mut prefixes: Vec<Vec<crate::connw::WAct>> = vec![];
         for a in &root.enabled {
